@@ -103,6 +103,31 @@ ImplPostselect(rows, Oo) ==
             IN [rows |-> rows1, p2 |-> 1]
        ELSE [rows |-> rows, p2 |-> IF st.acc.k = Oo.k THEN 2 ELSE 0]
 
+\* stabilizer_project (strings only; phases are not touched) for one observable
+RECURSIVE JScan(_, _, _, _, _)
+JScan(st, O, r, n, jj) ==
+    IF jj > 2 * n THEN st
+    ELSE LET j == ScanIdx(jj, r, n) IN
+         IF ~Anti(st.rows[j], O) THEN JScan(st, O, r, n, jj + 1)
+         ELSE IF st.upd THEN JScan([st EXCEPT !.rows[j] = SetS(@, Mul(st.rows[j], st.rows[st.p]).s)], O, r, n, jj + 1)
+              ELSE IF j <= n + r THEN JScan([st EXCEPT !.upd = TRUE, !.p = j], O, r, n, jj + 1)
+              ELSE JScan(st, O, r, n, jj + 1)
+ImplProject1(rows, r, O) ==
+    LET n == TabN(rows)
+        st == JScan([rows |-> rows, upd |-> FALSE, p |-> 0], O, r, n, 1)
+    IN IF ~st.upd THEN [rows |-> rows, r |-> r]
+       ELSE LET t == Settle([st EXCEPT !.rows = st.rows], O, r, n, 0)       \* same partner / extension / swap logic
+                pp == IF ~(r < st.p /\ st.p <= n) THEN r ELSE st.p
+            IN [rows |-> [t.rows EXCEPT ![pp] = SetS(st.rows[pp], t.rows[pp].s)], r |-> t.r]
+\* stabilizer_state(list): project the maximally mixed tableau onto the list in reverse order, then write the signs
+RECURSIVE ProjectAll(_, _, _, _)
+ProjectAll(rows, r, ops, j) == IF j = 0 THEN [rows |-> rows, r |-> r]
+    ELSE LET t == ImplProject1(rows, r, ops[j]) IN ProjectAll(t.rows, t.r, ops, j - 1)
+MixedRows(n) == [j \in 1..2 * n |-> IF j <= n THEN ZOp(j, n) ELSE XOp(j - n, n)]
+ImplStabilizerState(ops, n) ==
+    LET t == ProjectAll(MixedRows(n), n, ops, Len(ops)) IN
+    [rows |-> [j \in 1..2 * n |-> IF j > t.r /\ j <= n THEN [s |-> t.rows[j].s, k |-> ops[j - t.r].k] ELSE t.rows[j]], r |-> t.r]
+
 \* rotations and maps act row by row
 ImplRotate(rows, G) == [j \in 1..Len(rows) |-> Rot(G, rows[j])]
 =============================================================================
